@@ -12,7 +12,7 @@ import vlib
 PLACEHOLDERS = {
     "~NBSP~": " ", "~LSEP~": " ", "~IDSP~": "　", "~NEL~": "\u0085", "~ZWSP~": "​", "~BOM~": "﻿",
     "~VT~": "\x0b", "~ENSP~": " ", "~NUL~": "\x00", "~ASTRAL~": "\U0001F600", "~COMB~": "é", "~RTL~": "‮",
-    "~DEL~": "\x7f", "~ESC~": "\x1b", "~PUA~": "", "~MAXCP~": "\U0010FFFF", "~UIDENT~": "ü中", "~UJUNK~": "§",
+    "~DEL~": "\x7f", "~ESC~": "\x1b", "~PUA~": "", "~MAXCP~": "\U0010FFFF", "~UIDENT~": "ü中", "~UJUNK~": "§", "~UDIGIT~": "٣",
 }
 
 
